@@ -194,11 +194,25 @@ func dischargeAll(obs []*Obligation, workdir string, tlim int, par int, only str
 			}
 			if ob.ExpectSat {
 				tl = 3
+				if ob.pairBefore != nil && coverQuick {
+					tl = 1
+				}
 				if on == "" {
 					on = "z3-new"
 				}
 			}
 			st, sv, out, ms := runPortfolio(q, workdir, i, tl, on)
+			if ob.ExpectSat && ob.pairBefore != nil && st == "unsat" {
+				// unreachable after the assumed contract: only a finding when
+				// the point was reachable before it
+				st0, _, _, _ := runPortfolio(ob.pairBefore.Query(), workdir, i*10+7, tl, on)
+				if st0 == "unsat" {
+					res[i] = Result{Ob: ob, Status: "unsat", Solver: sv + "/dead-code", Millis: ms, SMTBytes: len(q)}
+					return
+				}
+				res[i] = Result{Ob: ob, Status: "sat", Solver: sv, Millis: ms, Output: "the assumed contract applied at this call contradicts what is known before it (vacuous proofs after this point)", SMTBytes: len(q)}
+				return
+			}
 			if ob.ExpectSat {
 				// cover obligations guard against vacuity: the assumptions
 				// must not be refutable. With quantified axioms the solvers
